@@ -73,6 +73,10 @@ def gen_spec(rng: np.random.Generator, tier: str, hermitian: bool = True, **forc
         int_all=bool(rng.random() < 0.5),
         real_pert=bool(rng.random() < 0.3),
         offset=int(rng.choice([0, 0, 0, 8192])),
+        # the whole Hamiltonian in tiny units (x 2^-k, exact in floating point) with the `atol` option scaled alike
+        units_exp=int(rng.integers(36, 64)) if rng.random() < 0.12 else 0,
+        # a user-chosen `atol` far below every gap (>= 1/16) and entry (>= 1/8) of the generated problem: must be neutral
+        user_atol=float(rng.choice([1e-4, 1e-5, 1e-6, 1e-9])) if rng.random() < 0.15 else 0.0,
     )
     if spec["vtype"] == "sympy" and spec["design"] == "indices" and rng.random() < 0.35:
         spec["container"] = "sympy_matrix"
@@ -106,6 +110,9 @@ def normalise(spec: dict, thorough: bool = False) -> dict:
     if spec.get("offset") and spec["design"] == "vectors" and spec["vtype"] != "sympy":
         # rotating a float H_0 of size ~1e4 leaves rounding noise above the library's absolute atol=1e-12
         spec["design"] = "indices"
+    if spec.get("units_exp") and (spec["vtype"] == "sympy" or spec["design"] == "vectors" or spec.get("int_h0")):
+        # `atol` also bounds dimensionless quantities (orthonormality of eigenvectors): only designations by index
+        spec["units_exp"] = 0
     if spec.get("symbolic") and spec["vtype"] == "sympy":
         if N > 5 or spec["complex"] or spec["design"] == "vectors":
             spec["symbolic"] = False
@@ -119,7 +126,7 @@ def normalise(spec: dict, thorough: bool = False) -> dict:
 
 def signature(spec: dict) -> list:
     return [
-        spec["hermitian"], spec["nblocks"], sorted(spec["sizes"]), spec["n_par"], spec["vtype"] + ("-spmatrix" if spec["vtype"] == "sparse" and spec.get("sparse_kind") == "matrix" else ""), spec["complex"], bool(spec.get("offset")), bool(spec.get("near_deg")), bool(spec.get("int_h0")), bool(spec.get("int_all")), bool(spec.get("real_pert")),
+        spec["hermitian"], spec["nblocks"], sorted(spec["sizes"]), spec["n_par"], spec["vtype"] + ("-spmatrix" if spec["vtype"] == "sparse" and spec.get("sparse_kind") == "matrix" else ""), spec["complex"], bool(spec.get("offset")), bool(spec.get("near_deg")), bool(spec.get("int_h0")), bool(spec.get("int_all")), bool(spec.get("real_pert")), bool(spec.get("units_exp")), bool(spec.get("user_atol")),
         spec["sel"], spec["design"], spec["container"], spec["extra_orders"], spec["degenerate"], spec["max_total"],
     ]
 
@@ -525,6 +532,19 @@ def _encode(p: Problem, rng):
             T0 = terms_enc[o]
             terms_enc[o] = to_int(T0) if design == "indices" else [[to_int(T0[i][j]) for j in range(nb)] for i in range(nb)]
         p.notes["int_h0"] = True
+    if spec.get("units_exp") and not p.exact and design in ("indices", "blocks") and not p.notes.get("int_h0"):
+        units = 2.0 ** -int(spec["units_exp"])
+
+        def scaled(Mv):
+            return [scaled(x) for x in Mv] if isinstance(Mv, list) else Mv * units
+
+        for o in list(terms_enc):
+            terms_enc[o] = scaled(terms_enc[o])
+        kwargs["atol"] = 1e-12 * units
+        p.notes["units"] = units
+    if spec.get("user_atol") and not p.exact and "atol" not in kwargs:
+        kwargs["atol"] = float(spec["user_atol"])
+        p.notes["user_atol"] = kwargs["atol"]
     if spec.get("symbolic") and p.exact and design in ("indices", "blocks"):
         # free symbols in H_0 and in the perturbation: t enters every level as E + d*(t - t0) (same d inside a
         # degenerate level), s multiplies part of the perturbation as (1 + s - s0); at t = t0, s = s0 the input is
@@ -609,8 +629,9 @@ def call_library(p: Problem, **override):
         raise Violation(f"block_diagonalize raised {type(e).__name__}: {e} on a well-posed problem", stage="define") from e
 
 
-def assemble(series, n, p: Problem, exact: bool):
-    """Full N x N matrix of the order-n element of a returned series."""
+def assemble(series, n, p: Problem, exact: bool, energy: bool = False):
+    """Full N x N matrix of the order-n element of a returned series (`energy`: the series is H_tilde, which
+    carries the units of the input; it is converted back to the harness's units)."""
     off = p.offsets()
     nb = len(p.sizes)
     out = gr_zeros((p.N, p.N)) if exact else np.zeros((p.N, p.N), complex)
@@ -621,6 +642,8 @@ def assemble(series, n, p: Problem, exact: bool):
                 blk = blk.subs(p.notes["subs"])  # free (non-perturbative) symbols -> the rationals they stand for
             shape = (p.sizes[i], p.sizes[j])
             out[off[i]:off[i + 1], off[j]:off[j + 1]] = to_exact(blk, shape) if exact else to_dense(blk, shape)
+    if energy and p.notes.get("units") and not exact:
+        out = out / p.notes["units"]
     return out
 
 
@@ -644,7 +667,7 @@ def extract(outputs, p: Problem, rng=None, orders=None):
         ) from e
     res = []
     for s in range(3):
-        res.append({n: assemble(outputs[s], n, p, p.exact) for n in orders})
+        res.append({n: assemble(outputs[s], n, p, p.exact, energy=(s == 0)) for n in orders})
     return tuple(res)
 
 
